@@ -494,6 +494,23 @@ func (o *Obligation) SMT(withModel bool, forCVC5 bool) string {
 			strAx = append(strAx, Eq(hd(Const(n, SStr)), BoolT(strings.Contains(strings.TrimPrefix(n, "str:"), "-"))))
 		}
 	}
+	{
+		// registered errors are distinct objects
+		var eg []string
+		for n := range d.consts {
+			if errGlobals[n] {
+				eg = append(eg, n)
+			}
+		}
+		sort.Strings(eg)
+		if len(eg) > 1 {
+			var ts []*Term
+			for _, n := range eg {
+				ts = append(ts, Const(n, SInt))
+			}
+			strAx = append(strAx, &Term{K: TApp, Op: "distinct", Sort: SBool, Args: ts})
+		}
+	}
 	if _, ok := d.funs["toBech32"]; ok {
 		// bech32 decoding is the inverse of encoding
 		a := Bound("a", SStr)
@@ -502,6 +519,7 @@ func (o *Obligation) SMT(withModel bool, forCVC5 bool) string {
 		strAx = append(strAx, Forall([]*Term{a}, Eq(UF("fromBech32", []string{SStr}, SStr, tb), a), []*Term{tb}))
 	}
 	if _, ok := d.funs["denomAt"]; ok {
+		d.funs["coinsLen"] = []string{sortStrArrInt, SInt}
 		cA, i, j := Bound("c", sortStrArrInt), Bound("i", SInt), Bound("j", SInt)
 		inR := func(k *Term) *Term { return And(Ge(k, Num(0)), Lt(k, CoinsLen(cA))) }
 		strAx = append(strAx, Forall([]*Term{cA, i, j}, Implies(And(inR(i), inR(j), Neq(i, j)), Neq(DenomAt(cA, i), DenomAt(cA, j))), []*Term{DenomAt(cA, i), DenomAt(cA, j)}))
@@ -545,9 +563,15 @@ func (o *Obligation) SMT(withModel bool, forCVC5 bool) string {
 		if o.noQuant && h.K == TQuant {
 			continue
 		}
+		if o.noQuant && o.Expect == "sat" {
+			h = relaxQuant(h, true) // nested quantifiers too: a satisfiability check must stay decidable
+		}
 		fmt.Fprintf(&sb, "(assert %s)\n", h)
 	}
 	if o.Expect == "sat" {
+		if o.noQuant {
+			goal = relaxQuant(goal, true)
+		}
 		fmt.Fprintf(&sb, "(assert %s)\n", goal)
 	} else {
 		fmt.Fprintf(&sb, "(assert (not %s))\n", goal)
@@ -601,6 +625,57 @@ func (o *Obligation) SMT(withModel bool, forCVC5 bool) string {
 		sb.WriteString("))\n")
 	}
 	return sb.String()
+}
+
+// relaxQuant weakens a formula until it is quantifier-free: a quantified subformula in positive position becomes true, in
+// negative position false; where the polarity is mixed (under = / ite / xor) the smallest enclosing Boolean subformula is
+// replaced. The result is implied by the original, so "satisfiable" answers get easier, never harder: used for covers only.
+func relaxQuant(t *Term, pos bool) *Term {
+	if t == nil || !hasQuant(t) {
+		return t
+	}
+	top := func() *Term {
+		if pos {
+			return TrueT
+		}
+		return FalseT
+	}
+	if t.K == TQuant {
+		return top()
+	}
+	if t.K != TApp || t.Sort != SBool {
+		return top()
+	}
+	switch t.Op {
+	case "and", "or":
+		args := make([]*Term, len(t.Args))
+		for i, a := range t.Args {
+			args[i] = relaxQuant(a, pos)
+		}
+		return &Term{K: TApp, Op: t.Op, Sort: SBool, Args: args}
+	case "not":
+		return &Term{K: TApp, Op: "not", Sort: SBool, Args: []*Term{relaxQuant(t.Args[0], !pos)}}
+	case "=>":
+		if len(t.Args) == 2 {
+			return &Term{K: TApp, Op: "=>", Sort: SBool, Args: []*Term{relaxQuant(t.Args[0], !pos), relaxQuant(t.Args[1], pos)}}
+		}
+	}
+	return top()
+}
+
+func hasQuant(t *Term) bool {
+	if t == nil {
+		return false
+	}
+	if t.K == TQuant {
+		return true
+	}
+	for _, a := range t.Args {
+		if hasQuant(a) {
+			return true
+		}
+	}
+	return false
 }
 
 type solverSpec struct {
